@@ -1,121 +1,411 @@
 import ScriggoV.Lemmas.ExprPP
-/-! `norm` against `strip`, `print`, `WF` and itself (C27) -/
+/-! `norm` against `strip`, `print`, `WF`, `Plain` and itself (C27) -/
 namespace ScriggoV.ExprPP
 open ScriggoV.Gen.Precedence
+
+/-! ### functions that only look at the node under the parentheses -/
+
+theorem core_wrapP (c : Bool) (e : Expr) : (wrapP c e).core = e.core := by
+  cases c <;> simp [wrapP, Expr.core]
+
+/-- `norm` keeps the kind of the node and removes its parentheses -/
+theorem core_norm : ∀ e : Expr, (norm e).core = norm e.core
+  | .paren e => by simpa [norm, Expr.core] using core_norm e
+  | .ident _ => by simp [norm, Expr.core]
+  | .lit _ _ => by simp [norm, Expr.core]
+  | .unary _ _ => by simp [norm, Expr.core]
+  | .binary _ _ _ => by simp [norm, Expr.core]
+  | .call _ _ _ => by simp [norm, Expr.core]
+  | .index _ _ => by simp [norm, Expr.core]
+  | .slicing _ _ _ _ _ => by simp [norm, Expr.core]
+  | .selector _ _ => by simp [norm, Expr.core]
+  | .typeAssert _ _ => by simp [norm, Expr.core]
+  | .dflt _ _ => by simp [norm, Expr.core]
+  | .sliceT _ => by simp [norm, Expr.core]
+  | .arrayT _ _ => by simp [norm, Expr.core]
+  | .mapT _ _ => by simp [norm, Expr.core]
+  | .chanT _ _ => by simp [norm, Expr.core]
+  | .iface => by simp [norm, Expr.core]
 
 theorem prec?_wrapP (c : Bool) (e : Expr) : (wrapP c e).prec? = e.prec? := by
   cases c <;> simp [wrapP, Expr.prec?]
 
 theorem prec?_norm : ∀ e : Expr, (norm e).prec? = e.prec?
+  | .paren e => by simp [norm, Expr.prec?, prec?_norm e]
   | .ident _ => by simp [norm]
-  | .lit _ => by simp [norm]
+  | .lit _ _ => by simp [norm]
   | .unary _ _ => by simp [norm, Expr.prec?]
   | .binary _ _ _ => by simp [norm, Expr.prec?]
   | .call _ _ _ => by simp [norm, Expr.prec?]
   | .index _ _ => by simp [norm, Expr.prec?]
+  | .slicing _ _ _ _ _ => by simp [norm, Expr.prec?]
   | .selector _ _ => by simp [norm, Expr.prec?]
-  | .paren e => by simp [norm, Expr.prec?, prec?_norm e]
+  | .typeAssert _ _ => by simp [norm, Expr.prec?]
+  | .dflt _ _ => by simp [norm, Expr.prec?]
+  | .sliceT _ => by simp [norm, Expr.prec?]
+  | .arrayT _ _ => by simp [norm, Expr.prec?]
+  | .mapT _ _ => by simp [norm, Expr.prec?]
+  | .chanT _ _ => by simp [norm, Expr.prec?]
+  | .iface => by simp [norm, Expr.prec?]
 
 theorem needs_wrapP_norm (rule : Nat → Bool) (c : Bool) (e : Expr) :
     needs rule (wrapP c (norm e)) = needs rule e := by
   simp [needs, prec?_wrapP, prec?_norm]
 
-theorem isOperator_wrapP_norm (c : Bool) (e : Expr) : isOperator (wrapP c (norm e)) = isOperator e := by
-  simp [isOperator, prec?_wrapP, prec?_norm]
-
-theorem unaryOp?_wrapP (c : Bool) (e : Expr) : (wrapP c e).unaryOp? = e.unaryOp? := by
-  cases c <;> simp [wrapP, Expr.unaryOp?]
-
-theorem unaryOp?_norm : ∀ e : Expr, (norm e).unaryOp? = e.unaryOp?
-  | .ident _ => by simp [norm]
-  | .lit _ => by simp [norm]
-  | .unary _ _ => by simp [norm, Expr.unaryOp?]
-  | .binary _ _ _ => by simp [norm, Expr.unaryOp?]
-  | .call _ _ _ => by simp [norm, Expr.unaryOp?]
-  | .index _ _ => by simp [norm, Expr.unaryOp?]
-  | .selector _ _ => by simp [norm, Expr.unaryOp?]
-  | .paren e => by simp [norm, Expr.unaryOp?, unaryOp?_norm e]
-
-theorem callParens_wrapP_norm (c : Bool) (e : Expr) : callParens (wrapP c (norm e)) = callParens e := by
-  simp [callParens, unaryOp?_wrapP, unaryOp?_norm]
-
 theorem isOperator_norm (e : Expr) : isOperator (norm e) = isOperator e := by
   simp [isOperator, prec?_norm]
 
-theorem Plain_wrapP (c : Bool) (e : Expr) : Plain (wrapP c e) ↔ Plain e := by
-  cases c <;> simp [wrapP, Plain]
+theorem isOperator_wrapP_norm (c : Bool) (e : Expr) : isOperator (wrapP c (norm e)) = isOperator e := by
+  simp [isOperator, prec?_wrapP, prec?_norm]
+
+/-- the kind of the node under the parentheses, as far as the printer and the predicates look -/
+inductive Kind where
+  | ident | unPointer | unReceive | chanRecv | chanOther | dflt | call | other
+  deriving DecidableEq
+
+def kindOf : Expr → Kind
+  | .ident _ => .ident
+  | .unary .pointer _ => .unPointer
+  | .unary .receive _ => .unReceive
+  | .chanT .ReceiveDirection _ => .chanRecv
+  | .chanT _ _ => .chanOther
+  | .dflt _ _ => .dflt
+  | .call _ _ _ => .call
+  | .paren e => kindOf e
+  | _ => .other
+
+theorem kindOf_wrapP (c : Bool) (e : Expr) : kindOf (wrapP c e) = kindOf e := by
+  cases c <;> simp [wrapP, kindOf]
+
+theorem kindOf_norm : ∀ e : Expr, kindOf (norm e) = kindOf e
+  | .paren e => by simpa [norm, kindOf] using kindOf_norm e
+  | .ident _ => by simp [norm, kindOf]
+  | .lit _ _ => by simp [norm, kindOf]
+  | .unary u _ => by cases u <;> simp [norm, kindOf]
+  | .binary _ _ _ => by simp [norm, kindOf]
+  | .call _ _ _ => by simp [norm, kindOf]
+  | .index _ _ => by simp [norm, kindOf]
+  | .slicing _ _ _ _ _ => by simp [norm, kindOf]
+  | .selector _ _ => by simp [norm, kindOf]
+  | .typeAssert _ _ => by simp [norm, kindOf]
+  | .dflt _ _ => by simp [norm, kindOf]
+  | .sliceT _ => by simp [norm, kindOf]
+  | .arrayT _ _ => by simp [norm, kindOf]
+  | .mapT _ _ => by simp [norm, kindOf]
+  | .chanT d _ => by cases d <;> simp [norm, kindOf]
+  | .iface => by simp [norm, kindOf]
+
+theorem callParens_kind : ∀ e : Expr, callParens e =
+    (match kindOf e with | .unPointer | .unReceive | .chanRecv | .chanOther => true | _ => false)
+  | .paren e => by simpa [callParens, Expr.core, kindOf] using callParens_kind e
+  | .ident _ => by simp [callParens, Expr.core, kindOf]
+  | .lit _ _ => by simp [callParens, Expr.core, kindOf]
+  | .unary u _ => by cases u <;> simp [callParens, Expr.core, kindOf]
+  | .binary _ _ _ => by simp [callParens, Expr.core, kindOf]
+  | .call _ _ _ => by simp [callParens, Expr.core, kindOf]
+  | .index _ _ => by simp [callParens, Expr.core, kindOf]
+  | .slicing _ _ _ _ _ => by simp [callParens, Expr.core, kindOf]
+  | .selector _ _ => by simp [callParens, Expr.core, kindOf]
+  | .typeAssert _ _ => by simp [callParens, Expr.core, kindOf]
+  | .dflt _ _ => by simp [callParens, Expr.core, kindOf]
+  | .sliceT _ => by simp [callParens, Expr.core, kindOf]
+  | .arrayT _ _ => by simp [callParens, Expr.core, kindOf]
+  | .mapT _ _ => by simp [callParens, Expr.core, kindOf]
+  | .chanT d _ => by cases d <;> simp [callParens, Expr.core, kindOf]
+  | .iface => by simp [callParens, Expr.core, kindOf]
+
+theorem chanParens_kind (d : ChanDirection) : ∀ e : Expr, chanParens d e =
+    (match d, kindOf e with | .NoDirection, .chanRecv => true | _, _ => false)
+  | .paren e => by simpa [chanParens, Expr.core, kindOf] using chanParens_kind d e
+  | .ident _ => by cases d <;> simp [chanParens, Expr.core, kindOf]
+  | .lit _ _ => by cases d <;> simp [chanParens, Expr.core, kindOf]
+  | .unary u _ => by cases d <;> cases u <;> simp [chanParens, Expr.core, kindOf]
+  | .binary _ _ _ => by cases d <;> simp [chanParens, Expr.core, kindOf]
+  | .call _ _ _ => by cases d <;> simp [chanParens, Expr.core, kindOf]
+  | .index _ _ => by cases d <;> simp [chanParens, Expr.core, kindOf]
+  | .slicing _ _ _ _ _ => by cases d <;> simp [chanParens, Expr.core, kindOf]
+  | .selector _ _ => by cases d <;> simp [chanParens, Expr.core, kindOf]
+  | .typeAssert _ _ => by cases d <;> simp [chanParens, Expr.core, kindOf]
+  | .dflt _ _ => by cases d <;> simp [chanParens, Expr.core, kindOf]
+  | .sliceT _ => by cases d <;> simp [chanParens, Expr.core, kindOf]
+  | .arrayT _ _ => by cases d <;> simp [chanParens, Expr.core, kindOf]
+  | .mapT _ _ => by cases d <;> simp [chanParens, Expr.core, kindOf]
+  | .chanT d' _ => by cases d <;> cases d' <;> simp [chanParens, Expr.core, kindOf]
+  | .iface => by cases d <;> simp [chanParens, Expr.core, kindOf]
+
+theorem isDflt_kind : ∀ e : Expr, isDflt e = (match kindOf e with | .dflt => true | _ => false)
+  | .paren e => by simpa [isDflt, Expr.core, kindOf] using isDflt_kind e
+  | .ident _ => by simp [isDflt, Expr.core, kindOf]
+  | .lit _ _ => by simp [isDflt, Expr.core, kindOf]
+  | .unary u _ => by cases u <;> simp [isDflt, Expr.core, kindOf]
+  | .binary _ _ _ => by simp [isDflt, Expr.core, kindOf]
+  | .call _ _ _ => by simp [isDflt, Expr.core, kindOf]
+  | .index _ _ => by simp [isDflt, Expr.core, kindOf]
+  | .slicing _ _ _ _ _ => by simp [isDflt, Expr.core, kindOf]
+  | .selector _ _ => by simp [isDflt, Expr.core, kindOf]
+  | .typeAssert _ _ => by simp [isDflt, Expr.core, kindOf]
+  | .dflt _ _ => by simp [isDflt, Expr.core, kindOf]
+  | .sliceT _ => by simp [isDflt, Expr.core, kindOf]
+  | .arrayT _ _ => by simp [isDflt, Expr.core, kindOf]
+  | .mapT _ _ => by simp [isDflt, Expr.core, kindOf]
+  | .chanT d _ => by cases d <;> simp [isDflt, Expr.core, kindOf]
+  | .iface => by simp [isDflt, Expr.core, kindOf]
+
+theorem dfltLhsOk_kind : ∀ e : Expr, dfltLhsOk e = (match kindOf e with | .ident | .call => true | _ => false)
+  | .paren e => by simpa [dfltLhsOk, kindOf] using dfltLhsOk_kind e
+  | .ident _ => by simp [dfltLhsOk, kindOf]
+  | .lit _ _ => by simp [dfltLhsOk, kindOf]
+  | .unary u _ => by cases u <;> simp [dfltLhsOk, kindOf]
+  | .binary _ _ _ => by simp [dfltLhsOk, kindOf]
+  | .call _ _ _ => by simp [dfltLhsOk, kindOf]
+  | .index _ _ => by simp [dfltLhsOk, kindOf]
+  | .slicing _ _ _ _ _ => by simp [dfltLhsOk, kindOf]
+  | .selector _ _ => by simp [dfltLhsOk, kindOf]
+  | .typeAssert _ _ => by simp [dfltLhsOk, kindOf]
+  | .dflt _ _ => by simp [dfltLhsOk, kindOf]
+  | .sliceT _ => by simp [dfltLhsOk, kindOf]
+  | .arrayT _ _ => by simp [dfltLhsOk, kindOf]
+  | .mapT _ _ => by simp [dfltLhsOk, kindOf]
+  | .chanT d _ => by cases d <;> simp [dfltLhsOk, kindOf]
+  | .iface => by simp [dfltLhsOk, kindOf]
+
+theorem identCore_kind : ∀ e : Expr,
+    (match e.core with | .ident _ => true | _ => false) = (match kindOf e with | .ident => true | _ => false)
+  | .paren e => by simpa [Expr.core, kindOf] using identCore_kind e
+  | .ident _ => by simp [Expr.core, kindOf]
+  | .lit _ _ => by simp [Expr.core, kindOf]
+  | .unary u _ => by cases u <;> simp [Expr.core, kindOf]
+  | .binary _ _ _ => by simp [Expr.core, kindOf]
+  | .call _ _ _ => by simp [Expr.core, kindOf]
+  | .index _ _ => by simp [Expr.core, kindOf]
+  | .slicing _ _ _ _ _ => by simp [Expr.core, kindOf]
+  | .selector _ _ => by simp [Expr.core, kindOf]
+  | .typeAssert _ _ => by simp [Expr.core, kindOf]
+  | .dflt _ _ => by simp [Expr.core, kindOf]
+  | .sliceT _ => by simp [Expr.core, kindOf]
+  | .arrayT _ _ => by simp [Expr.core, kindOf]
+  | .mapT _ _ => by simp [Expr.core, kindOf]
+  | .chanT d _ => by cases d <;> simp [Expr.core, kindOf]
+  | .iface => by simp [Expr.core, kindOf]
+
+theorem callParens_wrapP_norm (c : Bool) (e : Expr) : callParens (wrapP c (norm e)) = callParens e := by
+  rw [callParens_kind, callParens_kind, kindOf_wrapP, kindOf_norm]
+theorem callParens_norm (e : Expr) : callParens (norm e) = callParens e := by
+  rw [callParens_kind, callParens_kind, kindOf_norm]
+theorem chanParens_wrapP_norm (d : ChanDirection) (c : Bool) (e : Expr) :
+    chanParens d (wrapP c (norm e)) = chanParens d e := by
+  rw [chanParens_kind, chanParens_kind, kindOf_wrapP, kindOf_norm]
+theorem isDflt_norm (e : Expr) : isDflt (norm e) = isDflt e := by
+  rw [isDflt_kind, isDflt_kind, kindOf_norm]
+theorem isDflt_wrapP_norm (c : Bool) (e : Expr) : isDflt (wrapP c (norm e)) = isDflt e := by
+  rw [isDflt_kind, isDflt_kind, kindOf_wrapP, kindOf_norm]
+theorem dfltLhsOk_norm (e : Expr) : dfltLhsOk (norm e) = dfltLhsOk e := by
+  rw [dfltLhsOk_kind, dfltLhsOk_kind, kindOf_norm]
 
 theorem strip_wrapP (c : Bool) (e : Expr) : strip (wrapP c e) = strip e := by
   cases c <;> simp [wrapP, strip]
-
 theorem norm_wrapP (c : Bool) (e : Expr) : norm (wrapP c e) = norm e := by
   cases c <;> simp [wrapP, norm]
-
 theorem print_wrapP (c : Bool) (e : Expr) : print (wrapP c e) = print e := by
   cases c <;> simp [wrapP, print]
-
 theorem WF_wrapP (c : Bool) (e : Expr) : WF (wrapP c e) ↔ WF e := by
   cases c <;> simp [wrapP, WF]
+theorem Plain_wrapP (c : Bool) (e : Expr) : Plain (wrapP c e) ↔ Plain e := by
+  cases c <;> simp [wrapP, Plain]
+theorem IsType_wrapP (c : Bool) (e : Expr) : IsType (wrapP c e) = IsType e := by
+  cases c <;> simp [wrapP, IsType]
+theorem endsTy_wrapP (b c : Bool) (e : Expr) : endsTy b (wrapP c e) = endsTy b e := by
+  cases c <;> cases b <;> simp [wrapP, endsTy]
+theorem startsChan_wrapP (c : Bool) (e : Expr) : startsChan (wrapP c e) = startsChan e := by
+  cases c <;> simp [wrapP, startsChan]
 
-/-- all four facts at once, by the recursor of the nested type -/
+/-! ### all the facts at once, by the recursor of the nested type -/
+
 def NormFacts (e : Expr) : Prop :=
-  strip (norm e) = strip e ∧ norm (norm e) = norm e ∧ print (norm e) = print e ∧ (WF e → WF (norm e)) ∧
-    (Plain e → Plain (norm e))
+  strip (norm e) = strip e ∧ norm (norm e) = norm e ∧ print (norm e) = print e ∧
+    IsType (norm e) = IsType e ∧ (∀ b, endsTy b (norm e) = endsTy b e) ∧
+    startsChan (norm e) = startsChan e ∧ (WF e → WF (norm e)) ∧ (Plain e → Plain (norm e))
 
 def NormFactsArgs (as : List Expr) : Prop :=
   stripArgs (normArgs as) = stripArgs as ∧ normArgs (normArgs as) = normArgs as ∧
     printArgs (normArgs as) = printArgs as ∧ (WFArgs as → WFArgs (normArgs as)) ∧
     (as ≠ [] → normArgs as ≠ []) ∧ (PlainArgs as → PlainArgs (normArgs as))
 
+def NormFactsOpt (o : Option Expr) : Prop :=
+  stripOpt (normOpt o) = stripOpt o ∧ normOpt (normOpt o) = normOpt o ∧
+    printOpt (normOpt o) = printOpt o ∧ (WFOpt o → WFOpt (normOpt o)) ∧
+    (normOpt o).isSome = o.isSome ∧ (PlainOpt o → PlainOpt (normOpt o))
+
+theorem isType_selector_eq (e : Expr) (n : Nat) :
+    IsType (.selector e n) = (match kindOf e with | .ident => true | _ => false) := by
+  rw [← identCore_kind]; simp only [IsType]
+  generalize e.core = c
+  cases c <;> rfl
+
 theorem normFacts (e : Expr) : NormFacts e := by
-  refine Expr.rec (motive_1 := NormFacts) (motive_2 := NormFactsArgs) ?_ ?_ ?_ ?_ ?_ ?_ ?_ ?_ ?_ ?_ e
+  refine Expr.rec (motive_1 := NormFacts) (motive_2 := NormFactsArgs) (motive_3 := NormFactsOpt)
+    ?_ ?_ ?_ ?_ ?_ ?_ ?_ ?_ ?_ ?_ ?_ ?_ ?_ ?_ ?_ ?_ ?_ ?_ ?_ ?_ e
   · intro n; simp [NormFacts, norm]
-  · intro n; simp [NormFacts, norm]
-  · intro u e ⟨h1, h2, h3, h4, h5⟩
-    refine ⟨?_, ?_, ?_, ?_, ?_⟩
+  · intro k n; simp [NormFacts, norm]
+  · -- unary
+    intro u e ⟨h1, h2, h3, h4, h5, h6, h7, h8⟩
+    refine ⟨?_, ?_, ?_, ?_, ?_, ?_, ?_, ?_⟩
     · simp [norm, strip, strip_wrapP, h1]
     · simp [norm, needs_wrapP_norm, norm_wrapP, h2]
     · simp [norm, print, needs_wrapP_norm, print_wrapP, h3]
-    · simpa [norm, WF, WF_wrapP] using h4
-    · simpa [norm, Plain, Plain_wrapP] using h5
-  · intro b l r ⟨l1, l2, l3, l4, l5⟩ ⟨r1, r2, r3, r4, r5⟩
-    refine ⟨?_, ?_, ?_, ?_, ?_⟩
+    · cases u <;> simp [norm, IsType, IsType_wrapP, h4]
+    · intro b; cases b <;> simp [norm, endsTy, needs_wrapP_norm, endsTy_wrapP, h5]
+    · simp [norm, startsChan]
+    · simpa [norm, WF, WF_wrapP] using h7
+    · simp only [norm, Plain, Plain_wrapP, isDflt_wrapP_norm, needs_wrapP_norm, startsChan_wrapP, h6]
+      exact fun h => ⟨h8 h.1, h.2⟩
+  · -- binary
+    intro b l r ⟨l1, l2, l3, _, l5, l6, l7, l8⟩ ⟨r1, r2, r3, _, r5, _, r7, r8⟩
+    refine ⟨?_, ?_, ?_, ?_, ?_, ?_, ?_, ?_⟩
     · simp [norm, strip, strip_wrapP, l1, r1]
     · simp [norm, needs_wrapP_norm, norm_wrapP, l2, r2]
     · simp [norm, print, needs_wrapP_norm, print_wrapP, l3, r3]
-    · simp only [norm, WF, WF_wrapP]; exact fun h => ⟨l4 h.1, r4 h.2⟩
-    · simp only [norm, Plain, Plain_wrapP]; exact fun h => ⟨l5 h.1, r5 h.2⟩
-  · intro f args v ⟨f1, f2, f3, f4, f5⟩ ⟨a1, a2, a3, a4, a5, a6⟩
-    refine ⟨?_, ?_, ?_, ?_, ?_⟩
+    · simp [norm, IsType]
+    · intro c; cases c <;> simp [norm, endsTy, needs_wrapP_norm, endsTy_wrapP, r5]
+    · simp [norm, startsChan, needs_wrapP_norm, startsChan_wrapP, l6]
+    · simp only [norm, WF, WF_wrapP]; exact fun h => ⟨l7 h.1, r7 h.2⟩
+    · simp only [norm, Plain, Plain_wrapP, isDflt_wrapP_norm]
+      exact fun h => ⟨l8 h.1, r8 h.2.1, h.2.2⟩
+  · -- call
+    intro f args v ⟨f1, f2, f3, _, _, f6, f7, f8⟩ ⟨a1, a2, a3, a4, a5, a6⟩
+    refine ⟨?_, ?_, ?_, ?_, ?_, ?_, ?_, ?_⟩
     · simp [norm, strip, strip_wrapP, f1, a1]
     · simp [norm, callParens_wrapP_norm, norm_wrapP, f2, a2]
     · simp [norm, print, callParens_wrapP_norm, print_wrapP, f3, a3]
-    · simp only [norm, WF, WF_wrapP]; exact fun h => ⟨f4 h.1, a4 h.2.1, fun hv => a5 (h.2.2 hv)⟩
-    · simp only [norm, Plain, Plain_wrapP, isOperator_wrapP_norm, callParens_wrapP_norm]
-      exact fun h => ⟨f5 h.1, a6 h.2.1, h.2.2⟩
-  · intro e i ⟨e1, e2, e3, e4, e5⟩ ⟨i1, i2, i3, i4, i5⟩
-    refine ⟨?_, ?_, ?_, ?_, ?_⟩
+    · simp [norm, IsType]
+    · intro b; cases b <;> simp [norm, endsTy]
+    · simp [norm, startsChan, callParens_wrapP_norm, startsChan_wrapP, f6]
+    · simp only [norm, WF, WF_wrapP]; exact fun h => ⟨f7 h.1, a4 h.2.1, fun hv => a5 (h.2.2 hv)⟩
+    · simp only [norm, Plain, Plain_wrapP, isOperator_wrapP_norm, callParens_wrapP_norm, isDflt_wrapP_norm]
+      exact fun h => ⟨f8 h.1, a6 h.2.1, h.2.2⟩
+  · -- index
+    intro e i ⟨e1, e2, e3, _, _, e6, e7, e8⟩ ⟨i1, i2, i3, _, _, _, i7, i8⟩
+    refine ⟨?_, ?_, ?_, ?_, ?_, ?_, ?_, ?_⟩
     · simp [norm, strip, e1, i1]
     · simp [norm, e2, i2]
     · simp [norm, print, e3, i3]
-    · simp only [norm, WF]; exact fun h => ⟨e4 h.1, i4 h.2⟩
-    · simp only [norm, Plain, isOperator_norm]; exact fun h => ⟨e5 h.1, i5 h.2.1, h.2.2⟩
-  · intro e n ⟨e1, e2, e3, e4, e5⟩
-    refine ⟨?_, ?_, ?_, ?_, ?_⟩
+    · simp [norm, IsType]
+    · intro b; cases b <;> simp [norm, endsTy]
+    · simp [norm, startsChan, e6]
+    · simp only [norm, WF]; exact fun h => ⟨e7 h.1, i7 h.2⟩
+    · simp only [norm, Plain, isOperator_norm, isDflt_norm]; exact fun h => ⟨e8 h.1, i8 h.2.1, h.2.2⟩
+  · -- slicing
+    intro e lo hi mx full ⟨e1, e2, e3, _, _, e6, e7, e8⟩ ⟨lo1, lo2, lo3, lo4, _, lo6⟩
+      ⟨hi1, hi2, hi3, hi4, _, hi6⟩ ⟨mx1, mx2, mx3, mx4, mx5, mx6⟩
+    refine ⟨?_, ?_, ?_, ?_, ?_, ?_, ?_, ?_⟩
+    · simp [norm, strip, e1, lo1, hi1, mx1]
+    · simp [norm, e2, lo2, hi2, mx2]
+    · cases mx with
+      | none => simp [norm, print, normOpt, e3, lo3, hi3]
+      | some m =>
+        have : print (norm m) = print m := by simpa [normOpt, printOpt] using mx3
+        simp [norm, print, normOpt, e3, lo3, hi3, this]
+    · simp [norm, IsType]
+    · intro b; cases b <;> simp [norm, endsTy]
+    · simp [norm, startsChan, e6]
+    · simp only [norm, WF, mx5]; exact fun h => ⟨e7 h.1, lo4 h.2.1, hi4 h.2.2.1, mx4 h.2.2.2.1, h.2.2.2.2⟩
+    · simp only [norm, Plain, isOperator_norm, isDflt_norm]
+      exact fun h => ⟨e8 h.1, lo6 h.2.1, hi6 h.2.2.1, mx6 h.2.2.2.1, h.2.2.2.2⟩
+  · -- selector
+    intro e n ⟨e1, e2, e3, _, e5, e6, e7, e8⟩
+    refine ⟨?_, ?_, ?_, ?_, ?_, ?_, ?_, ?_⟩
     · simp [norm, strip, e1]
     · simp [norm, e2]
     · simp [norm, print, e3]
-    · simpa [norm, WF] using e4
-    · simp only [norm, Plain, isOperator_norm]; exact fun h => ⟨e5 h.1, h.2⟩
-  · intro e ⟨e1, e2, e3, e4, e5⟩
-    refine ⟨?_, ?_, ?_, ?_, ?_⟩
+    · simp only [norm]; rw [isType_selector_eq, isType_selector_eq, kindOf_norm]
+    · intro b; cases b <;> simp [norm, endsTy]
+    · simp [norm, startsChan, e6]
+    · simpa [norm, WF] using e7
+    · simp only [norm, Plain, isOperator_norm, isDflt_norm, e5]; exact fun h => ⟨e8 h.1, h.2⟩
+  · -- typeAssert
+    intro e t ⟨e1, e2, e3, _, e5, e6, e7, e8⟩ ⟨t1, t2, t3, t4, _, _, t7, t8⟩
+    refine ⟨?_, ?_, ?_, ?_, ?_, ?_, ?_, ?_⟩
+    · simp [norm, strip, e1, t1]
+    · simp [norm, e2, t2]
+    · simp [norm, print, e3, t3]
+    · simp [norm, IsType]
+    · intro b; cases b <;> simp [norm, endsTy]
+    · simp [norm, startsChan, e6]
+    · simp only [norm, WF, t4]; exact fun h => ⟨e7 h.1, t7 h.2.1, h.2.2⟩
+    · simp only [norm, Plain, isOperator_norm, isDflt_norm, e5]; exact fun h => ⟨e8 h.1, t8 h.2.1, h.2.2⟩
+  · -- dflt
+    intro l r ⟨l1, l2, l3, _, _, l6, l7, l8⟩ ⟨r1, r2, r3, _, r5, _, r7, r8⟩
+    refine ⟨?_, ?_, ?_, ?_, ?_, ?_, ?_, ?_⟩
+    · simp [norm, strip, l1, r1]
+    · simp [norm, l2, r2]
+    · simp [norm, print, l3, r3]
+    · simp [norm, IsType]
+    · intro b; cases b <;> simp [norm, endsTy, r5]
+    · simp [norm, startsChan, l6]
+    · simp only [norm, WF, dfltLhsOk_norm]; exact fun h => ⟨l7 h.1, r7 h.2.1, h.2.2⟩
+    · simp only [norm, Plain]; exact fun h => ⟨l8 h.1, r8 h.2⟩
+  · -- sliceT
+    intro t ⟨t1, t2, t3, t4, t5, _, t7, t8⟩
+    refine ⟨?_, ?_, ?_, ?_, ?_, ?_, ?_, ?_⟩
+    · simp [norm, strip, t1]
+    · simp [norm, t2]
+    · simp [norm, print, t3]
+    · simp [norm, IsType]
+    · intro b; cases b <;> simp [norm, endsTy, t5]
+    · simp [norm, startsChan]
+    · simp only [norm, WF, t4]; exact fun h => ⟨t7 h.1, h.2⟩
+    · simpa [norm, Plain] using t8
+  · -- arrayT
+    intro len t ⟨n1, n2, n3, n4, _, n6⟩ ⟨t1, t2, t3, t4, t5, _, t7, t8⟩
+    refine ⟨?_, ?_, ?_, ?_, ?_, ?_, ?_, ?_⟩
+    · simp [norm, strip, t1, n1]
+    · simp [norm, t2, n2]
+    · cases len with
+      | none => simp [norm, print, normOpt, t3]
+      | some l =>
+        have : print (norm l) = print l := by simpa [normOpt, printOpt] using n3
+        simp [norm, print, normOpt, t3, this]
+    · simp [norm, IsType]
+    · intro b; cases b <;> simp [norm, endsTy, t5]
+    · simp [norm, startsChan]
+    · simp only [norm, WF, t4]; exact fun h => ⟨n4 h.1, t7 h.2.1, h.2.2⟩
+    · simp only [norm, Plain]; exact fun h => ⟨n6 h.1, t8 h.2⟩
+  · -- mapT
+    intro k v ⟨k1, k2, k3, k4, _, _, k7, k8⟩ ⟨v1, v2, v3, v4, v5, _, v7, v8⟩
+    refine ⟨?_, ?_, ?_, ?_, ?_, ?_, ?_, ?_⟩
+    · simp [norm, strip, k1, v1]
+    · simp [norm, k2, v2]
+    · simp [norm, print, k3, v3]
+    · simp [norm, IsType]
+    · intro b; cases b <;> simp [norm, endsTy, v5]
+    · simp [norm, startsChan]
+    · simp only [norm, WF, k4, v4]; exact fun h => ⟨k7 h.1, h.2.1, v7 h.2.2.1, h.2.2.2⟩
+    · simp only [norm, Plain]; exact fun h => ⟨k8 h.1, v8 h.2⟩
+  · -- chanT
+    intro d t ⟨t1, t2, t3, t4, t5, _, t7, t8⟩
+    refine ⟨?_, ?_, ?_, ?_, ?_, ?_, ?_, ?_⟩
+    · simp [norm, strip, strip_wrapP, t1]
+    · simp [norm, chanParens_wrapP_norm, norm_wrapP, t2]
+    · simp [norm, print, chanParens_wrapP_norm, print_wrapP, t3]
+    · simp [norm, IsType]
+    · intro b; cases b <;> simp [norm, endsTy, chanParens_wrapP_norm, endsTy_wrapP, t5]
+    · cases d <;> simp [norm, startsChan]
+    · simp only [norm, WF, WF_wrapP, IsType_wrapP, t4]; exact fun h => ⟨t7 h.1, h.2⟩
+    · simpa [norm, Plain, Plain_wrapP] using t8
+  · simp [NormFacts, norm]
+  · -- paren
+    intro e ⟨e1, e2, e3, e4, e5, e6, e7, e8⟩
+    refine ⟨?_, ?_, ?_, ?_, ?_, ?_, ?_, ?_⟩
     · simp [norm, strip, e1]
     · simp [norm, e2]
     · simp [norm, print, e3]
-    · simpa [norm, WF] using e4
-    · simpa [norm, Plain] using e5
+    · simp [norm, IsType, e4]
+    · intro b; cases b <;> simp [norm, endsTy, e5]
+    · simp [norm, startsChan, e6]
+    · simpa [norm, WF] using e7
+    · simpa [norm, Plain] using e8
   · simp [NormFactsArgs, normArgs]
-  · intro a as ⟨h1, h2, h3, h4, h5⟩ ⟨a1, a2, a3, a4, a5, a6⟩
+  · intro a as ⟨h1, h2, h3, _, _, _, h7, h8⟩ ⟨a1, a2, a3, a4, a5, a6⟩
     refine ⟨?_, ?_, ?_, ?_, ?_, ?_⟩
     · simp [normArgs, stripArgs, h1, a1]
     · simp [normArgs, h2, a2]
@@ -125,14 +415,18 @@ theorem normFacts (e : Expr) : NormFacts e := by
         have : printArgs (norm b :: normArgs bs) = printArgs (b :: bs) := by simpa [normArgs] using a3
         simp only [normArgs]
         rw [printArgs_cons2, printArgs_cons2, h3, this]
-    · simp only [normArgs, WFArgs]; exact fun h => ⟨h4 h.1, a4 h.2⟩
+    · simp only [normArgs, WFArgs]; exact fun h => ⟨h7 h.1, a4 h.2⟩
     · simp [normArgs]
-    · simp only [normArgs, PlainArgs]; exact fun h => ⟨h5 h.1, a6 h.2⟩
+    · simp only [normArgs, PlainArgs]; exact fun h => ⟨h8 h.1, a6 h.2⟩
+  · simp [NormFactsOpt, normOpt]
+  · intro e ⟨e1, e2, e3, _, _, _, e7, e8⟩
+    exact ⟨by simp [normOpt, stripOpt, e1], by simp [normOpt, e2], by simp [normOpt, printOpt, e3],
+      by simpa [normOpt, WFOpt] using e7, by simp [normOpt], by simpa [normOpt, PlainOpt] using e8⟩
 
 theorem strip_norm (e : Expr) : strip (norm e) = strip e := (normFacts e).1
 theorem norm_norm (e : Expr) : norm (norm e) = norm e := (normFacts e).2.1
 theorem print_norm (e : Expr) : print (norm e) = print e := (normFacts e).2.2.1
-theorem WF_norm (e : Expr) (h : WF e) : WF (norm e) := (normFacts e).2.2.2.1 h
-theorem Plain_norm (e : Expr) (h : Plain e) : Plain (norm e) := (normFacts e).2.2.2.2 h
+theorem WF_norm (e : Expr) (h : WF e) : WF (norm e) := (normFacts e).2.2.2.2.2.2.1 h
+theorem Plain_norm (e : Expr) (h : Plain e) : Plain (norm e) := (normFacts e).2.2.2.2.2.2.2 h
 
 end ScriggoV.ExprPP
